@@ -241,7 +241,7 @@ func (fr *Frame) callByContract(x *ssa.Call, fn *ssa.Function, c *Contract, args
 		fr.havocAllocAndGhostDefaults(fn, st)
 	} else {
 		ms := vc.eng.modsetOf(fn)
-		fr.havocModset(ms, st)
+		fr.havocModset(fr.translateModset(ms, fn, args), st)
 	}
 	res := vc.freshVal(fr.prefix+"."+x.Name(), fn.Signature.Results())
 	vc.assumeIf(rch, vc.wf(res, st))
@@ -489,4 +489,46 @@ func (eng *Engine) reaches(from, to *ssa.Function) bool {
 		return false
 	}
 	return dfs(from)
+}
+
+// translateModset: the callee's write set names families relative to the
+// pointee types of its parameters; an argument that points into the middle of
+// a larger object (&dec.p) lives in the caller's families of the enclosing
+// object, which must be havocked as well.
+func (fr *Frame) translateModset(ms *modset, fn *ssa.Function, args []Val) *modset {
+	if ms.all {
+		return ms
+	}
+	var out *modset
+	for i, p := range fn.Params {
+		if i >= len(args) || args[i].Pl == nil {
+			continue
+		}
+		pl := args[i].Pl
+		pt, ok := p.Type().Underlying().(*types.Pointer)
+		if !ok || pl.Local != "" {
+			continue
+		}
+		if pl.Path == "" && types.Identical(pl.Root, pt.Elem()) {
+			continue
+		}
+		if !isStructObj(pt.Elem()) {
+			continue
+		}
+		from := "F$" + typeKey(pt.Elem()) + "$"
+		to := "F$" + typeKey(pl.Root) + "$" + pl.Path + "."
+		for fam, srt := range ms.fams {
+			if strings.HasPrefix(fam, from) {
+				if out == nil {
+					out = newModset()
+					out.union(ms)
+				}
+				out.fams[to+fam[len(from):]] = srt
+			}
+		}
+	}
+	if out == nil {
+		return ms
+	}
+	return out
 }
